@@ -736,6 +736,12 @@ mod shimtest {
             for i in 0..cs.len() + 2 { if s.chars().nth(i) != cs.get(i).copied() { h.hit("shims", "shim_chars_nth", "chars().nth", s, ""); } }
             if s.chars().count() != cs.len() || s.chars().last() != cs.last().copied() || s.matches("=").count() != cs.iter().filter(|c| **c == '=').count() { h.hit("shims", "shim_chars", "chars()", s, ""); }
             if s.chars().rev().collect::<String>() != cs.iter().rev().collect::<String>() { h.hit("shims", "shim_rev", "chars().rev()", s, ""); }
+            // assumed contract of StringExt::filter_ascii_control_characters: trim(remove every char below 0x20 and 0x7f)
+            let twin: String = cs.iter().filter(|c| !((**c as u32) < 0x20 || **c as u32 == 0x7f)).collect();
+            if crate::ext::string_ext::StringExt::filter_ascii_control_characters(s) != twin.trim() { h.hit("shims", "shim_filter_ctl", "StringExt::filter_ascii_control_characters", s, ""); }
+            // slice equality, join of byte vectors, Vec::remove / append as specified by vstd
+            let bv = s.as_bytes().to_vec();
+            if [bv.clone(), vec![1u8], bv.clone()].join(&b""[..]) != [bv.as_slice(), &[1u8], bv.as_slice()].concat() || vec![bv.clone(), bv.clone()].join(&b"\r\n"[..]) != [bv.as_slice(), b"\r\n", bv.as_slice()].concat() { h.hit("shims", "shim_bjoin", "[Vec<u8>]::join", s, ""); }
             // Cursor::read_until / read_to_end
             let b = s.as_bytes();
             let mut c = Cursor::new(b);
